@@ -1,6 +1,8 @@
 package config
 
 import (
+	"os"
+
 	"github.com/taskctl/taskctl/pkg/runner"
 	"github.com/taskctl/taskctl/pkg/variables"
 
@@ -22,7 +24,8 @@ type contextDefinition struct {
 func buildContext(def *contextDefinition) (*runner.ExecutionContext, error) {
 	dir := def.Dir
 	if dir == "" {
-		dir = utils.MustGetwd()
+		// when the working directory cannot be determined the commands report it themselves
+		dir, _ = os.Getwd()
 	}
 
 	c := runner.NewExecutionContext(
